@@ -78,6 +78,7 @@ Silent ==
      \/ (RecvSeesCtx /\ parked' = parked /\ UNCHANGED hv)
      \/ (RecvUnblocksQueue /\ parked' = parked /\ UNCHANGED hv)
      \/ (SendSeesCtx /\ parked' = parked /\ UNCHANGED hv)
+     \/ (SendDrainEnds /\ parked' = parked /\ UNCHANGED hv)
      \/ (ClientCloses /\ parked' = parked /\ UNCHANGED hv)
      \* the main loop takes a message off the queue (the observer sees it only when the handler is entered)
      \/ (q # <<>> /\ hcls' = Head(q) /\ ann' = FALSE /\ MainPops /\ parked' = parked)
